@@ -22,8 +22,15 @@ static bool gen_c06(uint64_t seed, const std::string &tier, uint64_t i, Plan &p)
   std::string msg, lab;
   if (i < total) { uint64_t l = 0; while (i >= cum[l]) l++; uint64_t idx = i - (l ? cum[l - 1] : 0); for (uint64_t q = 0; q < l; q++) { msg += kTok6[idx % 4]; idx /= 4; } if (r.chance(0.5) && (msg.empty() || msg.back() != '\n')) msg += "\n"; lab = "enumerated length " + std::to_string(l); }
   else {
-    int kind = (int)r.below(4);
-    if (kind == 0) { size_t n = (size_t)r.range(9, 60); for (size_t q = 0; q < n; q++) msg += kTok6[r.below(4)]; msg += "\n"; lab = "random tokens"; }
+    int kind = (int)r.below(5);
+    if (kind == 4) {   // long lines: around the 998/1000-byte line limits of RFC 5321 and around the 1024/2048/4096-byte buffers, dots at the edges
+      int nl = (int)r.range(1, 4);
+      for (int q = 0; q < nl; q++) { size_t len = (size_t)r.pick(std::vector<int>{996, 997, 998, 999, 1000, 1001, 1002, 1022, 1023, 1024, 1025, 2047, 2048, 2049, 4095, 4096, 4097, 9000}) + (size_t)r.below(3);
+        std::string line; for (size_t c = 0; c < len; c++) line += r.chance(0.03) ? '.' : (char)('a' + r.below(26));
+        if (r.chance(0.5)) line[0] = '.'; if (r.chance(0.6)) line[len - 1] = '.'; if (len > 1000 && r.chance(0.6)) { line[997] = '.'; line[998] = '.'; line[999] = '.'; }
+        msg += line + (r.chance(0.15) ? "\r\n" : "\n"); if (r.chance(0.5)) msg += "MAIL FROM:<evil@x.example>\nRCPT TO:<victim@r.example>\nDATA\nforged\n.\n"; }
+      lab = "long lines"; }
+    else if (kind == 0) { size_t n = (size_t)r.range(9, 60); for (size_t q = 0; q < n; q++) msg += kTok6[r.below(4)]; msg += "\n"; lab = "random tokens"; }
     else if (kind == 1) { size_t n = (size_t)r.pick(std::vector<int>{1020, 1021, 1022, 1023, 1024, 1025, 1026, 2047, 2048, 2049, 3000, 8000}); while (msg.size() < n) { int t = (int)r.below(30); msg += t == 0 ? "\n" : t == 1 ? ".\n" : t == 2 ? "\n." : t == 3 ? "\r" : t == 4 ? "\r\n" : std::string(1, (char)('a' + r.below(26))); } msg.resize(n); msg.back() = '\n'; lab = "around buffer sizes"; }
     else { msg = gen_body(r.next(), (size_t)r.range(0, 8000)); if (r.chance(0.85) && (msg.empty() || msg.back() != '\n')) msg += "\n"; lab = "random message"; }
   }
